@@ -9,27 +9,23 @@ TRUST = ("Trusted base: rustc's MIR for the dev profile (mir-opt-level=0) as the
          "safe code outside the recognised idioms is reported (fail closed, floors on instance counts). Only the named structural clauses "
          "are decided, not the whole behaviour.")
 
-CLAIMS = {
-    "C16": {
-        "text": "Static necessary conditions of in-order exactly-once delivery, decided on MIR for every path of the anchored functions: "
-                "IOQueue content changes are coupled with `length`/`offset` updates, the tty is written only from poll's consume_with "
-                "closure, the consumed amount is the tty write's return value, frames_drop keeps the chunk in flight, poll flushes first "
-                "and loops while output is pending. Kernel schedules and chunk-granularity histories are not decided.",
-        "technique": "MIR CFG/effect rules: coupled-update (path) analysis, who-may-call, value-origin dataflow, dominators",
-        "design_ref": "DESIGN.md §5 C16",
-    },
-}
+import importlib
+import sys
+sys.path.insert(0, VERIF)
 
-CLAIMS["C17"] = {
-    "text": "Static necessary conditions of C17 decided on MIR for every path: dispose reaches tcsetattr(tty, saved termios) on every normal "
-            "return and Drop calls it; the saved termios is written once from tcgetattr and never mutated; the closing sequence contains the "
-            "cursor/mouse resets with the DeviceAttrs sync last followed by a poll; the waker performs one raw non-empty write with "
-            "EINTR/EAGAIN coalesced to Ok and poll queues Wake whenever the pipe returned bytes; all registered signals are handled; one "
-            "loop iteration evaluates all four readiness handlers. Bounded-time delivery, cross-thread order and abnormal termination "
-            "are not decided (schedules/crash points are not static objects).",
-    "technique": "MIR CFG rules: must-pass-through (post-dominance), who-writes/borrows, constant-table and switch-table checks",
-    "design_ref": "DESIGN.md §5 C17",
-}
+
+def load_claims():
+    """each sa/rules/cNN.py that is ready to be registered defines CLAIM = {text, technique, design_ref[, note]}"""
+    claims = {}
+    d = os.path.join(VERIF, "sa", "rules")
+    for f in sorted(os.listdir(d)):
+        if f.startswith("c") and f.endswith(".py"):
+            mod = importlib.import_module("sa.rules." + f[:-3])
+            c = getattr(mod, "CLAIM", None)
+            if c:
+                claims[f[:-3].upper()] = c
+    return claims
+
 
 NOT_APPLICABLE = {
     "C12": "sixel pixel-exact decoding, run-length and band assembly are value computations over image data; no clause visible in the shape of the code decides them (DESIGN §5 C12)",
@@ -38,6 +34,7 @@ NOT_APPLICABLE = {
 
 
 def main():
+    CLAIMS = load_claims()
     props = [json.loads(l)["id"] for l in open(os.path.join(VERIF, "properties.jsonl"))]
     checks = []
     na = []
